@@ -70,6 +70,7 @@ def run(ctx):
                    lambda k: val_obs[k], show=lambda k: U.short(msgs[k]))
     legacy = [rng.chance(1, 2) for _ in msgs]
     gen_obs = [U.do_gen(m, l) for m, l in zip(msgs, legacy)]
+    U.gen_reuse_check(ctx, list(zip(msgs, legacy)), gen_obs, "c13-gen-history")
     ctx.correspond("gen_msg", "Trxd", idx,
                    lambda k: "%s %d %s" % ("w_trxd_tx_gen" if msgs[k]["kind"] == "tx" else "w_trxd_rx_gen", 1 if legacy[k] else 0, " ".join(map(str, U.enc(msgs[k])))),
                    lambda k: gen_obs[k], show=lambda k: dict(msg=U.short(msgs[k]), legacy=legacy[k]))
